@@ -5,6 +5,8 @@
 package keeper
 
 // ---- frames of what other modules call (checked against the call-graph inference) ---------------
+// Paying out pending rewards moves tokens between accounts (ledger-only denoms are credited in
+// the commitment ledger); nothing is minted or burnt (no mint/burn site is reachable).
 //@ func (Keeper).ClaimRewards
-//@ modifies module:commitment, module:masterchef, bank
+//@ modifies module:commitment, module:masterchef, bank-balances
 //@ frame-only
